@@ -147,6 +147,11 @@ pub struct TrackingCase {
     pub uncompressed_level: bool,
     /// frames compressed with the same compressor + matcher (reset in between)
     pub frames: u8,
+    /// the matcher's window depends on the level it is reset with (the trait allows that:
+    /// "may change after a call to reset with a different compression level"): 2^this bytes at
+    /// level Uncompressed, the full window otherwise; the level alternates from frame to frame
+    #[serde(default)]
+    pub uncompressed_window_log: Option<u8>,
 }
 
 #[derive(Clone, Debug, Serialize, Deserialize)]
@@ -157,6 +162,8 @@ pub enum Case {
 }
 
 pub struct TrackingMatcher {
+    /// (window at level Uncompressed, window otherwise) when the window depends on the level
+    by_level: Option<(usize, usize)>,
     window: usize,
     space: usize,
     min_match: usize,
@@ -251,7 +258,10 @@ impl Matcher for TrackingMatcher {
         self.stats.set(st);
         self.index_upto(end.saturating_sub(self.min_match - 1));
     }
-    fn reset(&mut self, _level: CompressionLevel) {
+    fn reset(&mut self, level: CompressionLevel) {
+        if let Some((unc, other)) = self.by_level {
+            self.window = if matches!(level, CompressionLevel::Uncompressed) { unc } else { other };
+        }
         self.hist.clear();
         self.table.clear();
         self.last.clear();
@@ -266,23 +276,36 @@ impl Matcher for TrackingMatcher {
 fn check_tracking(tc: &TrackingCase, ctx: &mut CaseCtx) -> CaseResult {
     let data = tc.data.render();
     let window = ((1u64 << tc.window_log) + (tc.window_extra as u64 % (1u64 << tc.window_log))) as usize;
-    let space = (tc.space as usize).clamp(1, BLK).min(window);
+    let by_level = tc.uncompressed_window_log.map(|l| ((1usize << l.clamp(10, 16)).min(window), window));
+    // spaces never exceed the smallest window the matcher will advertise (Block_Maximum_Size)
+    let space = (tc.space as usize).clamp(1, BLK).min(by_level.map(|b| b.0).unwrap_or(window));
     let stats = std::rc::Rc::new(std::cell::Cell::new((0u64, 0u64, 0u64)));
-    let matcher = TrackingMatcher { window, space, min_match: tc.min_match.clamp(3, 6) as usize, hist: vec![], cur: 0, last: vec![], table: Default::default(), indexed: 0, stats: stats.clone() };
-    let level = if tc.uncompressed_level { CompressionLevel::Uncompressed } else { CompressionLevel::Fastest };
-    let mut comp: FrameCompressor<&[u8], Vec<u8>, TrackingMatcher> = FrameCompressor::new_with_matcher(matcher, level);
+    // a matcher that configures itself in reset() starts out with its smallest window
+    let matcher = TrackingMatcher { by_level, window: by_level.map(|b| b.0).unwrap_or(window), space, min_match: tc.min_match.clamp(3, 6) as usize, hist: vec![], cur: 0, last: vec![], table: Default::default(), indexed: 0, stats: stats.clone() };
+    let level_of = |f: u8| {
+        let unc = if by_level.is_some() { tc.uncompressed_level ^ (f % 2 == 1) } else { tc.uncompressed_level };
+        if unc { CompressionLevel::Uncompressed } else { CompressionLevel::Fastest }
+    };
+    let mut comp: FrameCompressor<&[u8], Vec<u8>, TrackingMatcher> = FrameCompressor::new_with_matcher(matcher, level_of(0));
     let mut parts: Vec<Vec<u8>> = vec![];
-    for f in 0..tc.frames.clamp(1, 3) {
+    let nframes = if by_level.is_some() { tc.frames.clamp(2, 3) } else { tc.frames.clamp(1, 3) };
+    for f in 0..nframes {
         // later frames of the same compressor see the data from a different starting point
         let from = (f as usize * 1021) % data.len().max(1);
         let input = &data[from.min(data.len())..];
+        let level = level_of(f);
+        let window_now = match by_level {
+            Some((unc, other)) => if matches!(level, CompressionLevel::Uncompressed) { unc } else { other },
+            None => window,
+        };
+        comp.set_compression_level(level);
         comp.set_source(input);
         comp.set_drain(Vec::new());
         comp.compress();
         let out = comp.take_drain().unwrap();
-        verify_frame(input, &out, &format!("history-keeping matcher (window {window}, spaces of {space}, frame #{f})"))?;
+        verify_frame(input, &out, &format!("history-keeping matcher (window {window_now}, spaces of {space}, frame #{f})"))?;
         let info = frame::walk(&out, &WalkOpts::default()).map_err(|e| Failure::new("malformed_frame", format!("strict walker rejects the frame: {e}; frame {}", hexhead(&out))))?;
-        ensure!(info.header.window_size >= window as u64, "window_too_small", "frame declares window {} but the matcher advertised {window}", info.header.window_size);
+        ensure!(info.header.window_size >= window_now as u64, "window_too_small", "frame #{f} declares window {} but the matcher advertises {window_now} at this level", info.header.window_size);
         for b in &info.blocks {
             ctx.feat(match b.btype {
                 0 => "tracking:block_raw",
@@ -292,6 +315,7 @@ fn check_tracking(tc: &TrackingCase, ctx: &mut CaseCtx) -> CaseResult {
         }
         parts.push(out);
     }
+    ctx.feat_if(by_level.is_some(), "tracking:window_depends_on_the_level_(alternating_levels)");
     let st = stats.get();
     ctx.feat("script:history_keeping_matcher");
     ctx.feat_if(st.1 > 0, "tracking:match_reaches_into_an_earlier_space");
@@ -339,8 +363,13 @@ fn case_strategy(tier: Tier) -> impl Strategy<Value = Case> {
             3u8..=6,
             prop::bool::weighted(0.08),
             prop_oneof![4 => Just(1u8), 1 => 2u8..=3],
+            prop::option::weighted(0.25, 10u8..=13),
         )
-            .prop_map(|(data, space, window_log, window_extra, min_match, uncompressed_level, frames)| Case::Tracking(TrackingCase { data, space, window_log, window_extra, min_match, uncompressed_level, frames })),
+            .prop_map(|(data, space, window_log, window_extra, min_match, uncompressed_level, frames, uncompressed_window_log)| {
+                // with a level-dependent window both levels take turns: start with either
+                let uncompressed_level = if uncompressed_window_log.is_some() { window_extra % 2 == 0 } else { uncompressed_level };
+                Case::Tracking(TrackingCase { data, space, window_log, window_extra, min_match, uncompressed_level, frames, uncompressed_window_log })
+            }),
         1 => (data_strategy(400_000), 1i32..=19, prop_oneof![Just(0u32), 10u32..=20]).prop_map(|(mut data, level, wlog)| {
             if data.len % (BLK as u32) < 16 {
                 data.len += 16;
@@ -653,7 +682,7 @@ pub fn check(case: &Case, ctx: &mut CaseCtx) -> CaseResult {
 }
 
 pub fn run(eng: &Engine) {
-    eng.set_rule("a scripted matcher implementing the public Matcher trait replays a generated parse that is valid by construction (data and parse generated together: windows 2^10..2^23 spanning many blocks, block shapes biased to the interface's corners: up to one sequence per 3 bytes (>= 32512 / 32768 per block), all literal lengths 0, all match lengths 3, lengths at every code boundary, ll up to 131069, ml up to 131072, > 1024 equal literals, literals around the 1 KiB / 16 KiB thresholds, incompressible blocks followed by Huffman-friendly ones, offsets at the far edge of the window) or a parse produced by ZSTD_generateSequences (levels 1..19, min-match 3); a third family is a history-keeping matcher that knows only what the compressor commits to it (spaces of 1 B..128 KiB, windows 2^10..2^20 incl. non-powers of two, min-match 3..6, greedy hash search over its own copy of the committed spaces, reused for up to 3 frames) - its matches are true for the stream exactly if the compressor hands it every byte of the stream, also for blocks it stores raw or RLE; oracle: compress() returns, libzstd and this crate decode the frame to the input, the strict walker finds exactly the scripted sequences in every block stored compressed; non-trivial = the parse lies outside what the built-in matcher can emit (a match of length 3 or 4, an offset > 128 KiB, or > 26214 sequences in a block), or a history-keeping matcher whose match reaches into an earlier space; distinct by frame hash");
+    eng.set_rule("a scripted matcher implementing the public Matcher trait replays a generated parse that is valid by construction (data and parse generated together: windows 2^10..2^23 spanning many blocks, block shapes biased to the interface's corners: up to one sequence per 3 bytes (>= 32512 / 32768 per block), all literal lengths 0, all match lengths 3, lengths at every code boundary, ll up to 131069, ml up to 131072, > 1024 equal literals, literals around the 1 KiB / 16 KiB thresholds, incompressible blocks followed by Huffman-friendly ones, offsets at the far edge of the window) or a parse produced by ZSTD_generateSequences (levels 1..19, min-match 3); a third family is a history-keeping matcher that knows only what the compressor commits to it (spaces of 1 B..128 KiB, windows 2^10..2^20 incl. non-powers of two, min-match 3..6, greedy hash search over its own copy of the committed spaces, reused for up to 3 frames, optionally with a window that depends on the level passed to reset() while the levels alternate) - its matches are true for the stream exactly if the compressor hands it every byte of the stream, also for blocks it stores raw or RLE; oracle: compress() returns, libzstd and this crate decode the frame to the input, the strict walker finds exactly the scripted sequences in every block stored compressed; non-trivial = the parse lies outside what the built-in matcher can emit (a match of length 3 or 4, an offset > 128 KiB, or > 26214 sequences in a block), or a history-keeping matcher whose match reaches into an earlier space; distinct by frame hash");
     eng.assume("matcher spaces have a length >= 1; the matcher never lies about its data");
     let tier = eng.tier;
     let n = eng.tier.pick(30_000, 500_000);
